@@ -1,4 +1,5 @@
 import FmpRpc.Proofs.TransportInv
+import FmpRpc.Proofs.TransportInvA7
 import FmpRpc.Props.C01
 /-
   C13 — sends keep their order, seqnos are never reused, the send notifier is
@@ -17,13 +18,15 @@ def writesOf (h : List Evt) : List Nat :=
     goroutine only after its own hand-off, so program order is kept). -/
 theorem wire_order_is_handoff_order (s : St) (hr : Reachable s) :
     writesOf s.hist <+: handoffs s.hist ∧ s.wlog = writesOf s.hist := by
-  sorry
+  have h := HInv_reach s hr
+  have ho : handoffs s.hist = writesOf s.hist ++ wPend s.w := h.ho
+  exact ⟨⟨wPend s.w, ho.symm⟩, h.wl⟩
 
 /-- Sequence numbers are never reused (C01.seq_distinct) and the next one is
     above all of them. -/
 theorem seq_never_reused (s : St) (hr : Reachable s) :
     (C01.issuedSeqs s.hist).Nodup ∧ ∀ q ∈ C01.issuedSeqs s.hist, q < (s.nextSeq : Int) :=
-  sorry
+  ⟨(HInv_reach s hr).iss_nd, (HInv_reach s hr).iss_lt⟩
 
 /-- the send being written right now (notifier already run, `Write` not yet
     called) -/
@@ -41,7 +44,18 @@ theorem notifier_exact (s : St) (hr : Reachable s) :
     (∀ e ∈ s.nlog, e.2 = (s.sends e.1).seq ∧
       ((s.sends e.1).kind = .call ∨ (s.sends e.1).kind = .notify)) ∧
     (∀ x, (s.sends x).notif = true → (s.sends x).kind = .call ∨ (s.sends x).kind = .notify) := by
-  sorry
+  have h0 := NL0_reach s hr
+  have h1 := NL1_reach s hr
+  have hn1 : s.nlog.map Prod.fst = (s.wlog ++ wWriting s.w).filter (fun x => (s.sends x).notif) := h1.nl1
+  have hiw : inWrite s = wWriting s.w := by
+    unfold inWrite; cases s.w <;> rfl
+  refine ⟨by rw [hiw]; exact hn1, ?_, h0.nl3⟩
+  intro e he
+  refine ⟨(h1.nl2 e he).2, ?_⟩
+  apply h0.nl3
+  have hm : e.1 ∈ s.nlog.map Prod.fst := List.mem_map.mpr ⟨e, he, rfl⟩
+  rw [hn1] at hm
+  simpa using (List.mem_filter.mp hm).2
 
 /-- A cancellation never precedes its call on the wire: when the cancel frame
     of a call whose frame went through the hand-off is written, the call frame
@@ -51,6 +65,10 @@ theorem cancel_after_call (s : St) (hr : Reachable s) (y : Nat) (hy : y ∈ s.wl
     ∃ x, (s.sends x).kind = .call ∧ (s.sends x).who = (s.sends y).who ∧
       (s.sends x).seq = (s.sends y).seq ∧
       ∃ i j : Nat, s.wlog[i]? = some x ∧ s.wlog[j]? = some y ∧ i < j := by
-  sorry
+  have h := (OAll_reach s hr).o4
+  obtain ⟨j, hj, hget⟩ := List.mem_iff_getElem.mp hy
+  have hj' : s.wlog[j]? = some y := by rw [List.getElem?_eq_getElem hj, hget]
+  obtain ⟨x, i, h1, h2, h3, h4, h5⟩ := h j y hj' hk hsent
+  exact ⟨x, h1, h2, h3, i, j, h4, hj', h5⟩
 
 end FmpRpc.C13
